@@ -14,20 +14,6 @@ def SetFeedValue_call_deleteOldestFeedValue_1_arg1 (feedName : String) : Option 
 def SetFeedValue_call_deleteOldestFeedValue_1_arg2 (delta : Int) : Option (Int) := do
   some (I64_Add delta (1 : Int))
 
-def EditFeed_expectCnt_1 (msg_LatestHistory : Nat) : Option (Int) := do
-  some (I64_wrap (msg_LatestHistory : Int))
-
-def EditFeed_feed_LatestHistory_1 (msg_LatestHistory : Nat) : Option (Nat) := do
-  some msg_LatestHistory
-
-/-- argument 1 of `k.deleteOldestFeedValue` -/
-def EditFeed_call_deleteOldestFeedValue_1_arg1 (feed_FeedName : String) : Option (String) := do
-  some feed_FeedName
-
-/-- argument 2 of `k.deleteOldestFeedValue` -/
-def EditFeed_call_deleteOldestFeedValue_1_arg2 (cnt : Int) (expectCnt : Int) : Option (Int) := do
-  some (I64_Sub cnt expectCnt)
-
 /-- rejects when true: `msg.Creator != feed.Creator` -/
 def EditFeed_guard_1 (msg_Creator : String) (feed_Creator : String) : Option (Bool) := do
   some (msg_Creator != feed_Creator)
@@ -40,6 +26,20 @@ def EditFeed_cond_2 (msg_LatestHistory : Nat) : Option (Bool) := do
 def EditFeed_cond_3 (expectCnt : Int) (cnt : Int) : Option (Bool) := do
   some (decide (expectCnt < cnt))
 
+def EditFeed_expectCnt_1 (msg_LatestHistory : Nat) : Option (Int) := do
+  some (I64_wrap (msg_LatestHistory : Int))
+
+/-- argument 1 of `k.deleteOldestFeedValue` -/
+def EditFeed_call_deleteOldestFeedValue_1_arg1 (feed_FeedName : String) : Option (String) := do
+  some feed_FeedName
+
+/-- argument 2 of `k.deleteOldestFeedValue` -/
+def EditFeed_call_deleteOldestFeedValue_1_arg2 (cnt : Int) (expectCnt : Int) : Option (Int) := do
+  some (I64_Sub cnt expectCnt)
+
+def EditFeed_feed_LatestHistory_1 (msg_LatestHistory : Nat) : Option (Nat) := do
+  some msg_LatestHistory
+
 /-- branch condition: `types.Modified(msg.Description)` -/
 def EditFeed_cond_4 (read_types_Modified_msg_Description : Bool) : Option (Bool) := do
   some read_types_Modified_msg_Description
@@ -48,6 +48,6 @@ def EditFeed_cond_4 (read_types_Modified_msg_Description : Bool) : Option (Bool)
 def untranslated : List String := []
 
 /-- names of the translated definitions -/
-def translated : List String := ["SetFeedValue_delta_1(counter,latestHistory)", "SetFeedValue_call_deleteOldestFeedValue_1_arg1(feedName)", "SetFeedValue_call_deleteOldestFeedValue_1_arg2(delta)", "EditFeed_expectCnt_1(msg_LatestHistory)", "EditFeed_feed_LatestHistory_1(msg_LatestHistory)", "EditFeed_call_deleteOldestFeedValue_1_arg1(feed_FeedName)", "EditFeed_call_deleteOldestFeedValue_1_arg2(cnt,expectCnt)", "EditFeed_guard_1(msg_Creator,feed_Creator)", "EditFeed_cond_2(msg_LatestHistory)", "EditFeed_cond_3(expectCnt,cnt)", "EditFeed_cond_4(read_types_Modified_msg_Description)"]
+def translated : List String := ["SetFeedValue_delta_1(counter,latestHistory)", "SetFeedValue_call_deleteOldestFeedValue_1_arg1(feedName)", "SetFeedValue_call_deleteOldestFeedValue_1_arg2(delta)", "EditFeed_guard_1(msg_Creator,feed_Creator)", "EditFeed_cond_2(msg_LatestHistory)", "EditFeed_cond_3(expectCnt,cnt)", "EditFeed_expectCnt_1(msg_LatestHistory)", "EditFeed_call_deleteOldestFeedValue_1_arg1(feed_FeedName)", "EditFeed_call_deleteOldestFeedValue_1_arg2(cnt,expectCnt)", "EditFeed_feed_LatestHistory_1(msg_LatestHistory)", "EditFeed_cond_4(read_types_Modified_msg_Description)"]
 
 end Irismod.Gen.PureOracle
